@@ -119,6 +119,8 @@ def gen_kernels(st):
                  "return (uint64_t)(uintptr_t)&reinterpret_cast<const volatile char&>(t->%s) - p; }" % (n, nm, n, nm))
     k.append("K void k_store_%s(uint64_t base, uint64_t p, const void* in) { S::g_base = base; auto t = mk_tainted<%s*, S>(p); tainted<%s, S> v; "
              "std::memcpy((void*)&v, in, sizeof(%s)); *t = v; }" % (n, n, n, n))
+    k.append("K void k_storeidx_%s(uint64_t base, uint64_t p, const void* in) { S::g_base = base; auto t = mk_tainted<%s*, S>(p); tainted<%s, S> v; "
+             "std::memcpy((void*)&v, in, sizeof(%s)); t[1] = v; }" % (n, n, n, n))
     k.append("K void k_load_%s(uint64_t base, uint64_t p, void* out) { S::g_base = base; auto t = mk_tainted<%s*, S>(p); tainted<%s, S> v = *t; "
              "std::memcpy(out, (const void*)&v, sizeof(%s)); }" % (n, n, n, n))
     k.append("K void k_loadu_%s(uint64_t base, uint64_t p, void* out) { S::g_base = base; auto t = mk_tainted<%s*, S>(p); %s v = t->UNSAFE_unverified(); "
@@ -252,7 +254,7 @@ def whole(st):
     return st.as_field()
 
 
-def check_store(ctx, st, byval=False):
+def check_store(ctx, st, byval=False, index=0):
     base = ctx.sandbox_base(32)
     inb = ctx.buffer(st.asz, name="in")
     f = whole(st)
@@ -264,6 +266,12 @@ def check_store(ctx, st, byval=False):
     if byval:
         paths = ctx.run("k_byval_arg_" + st.name, [base, inb])
         p = base + 0x1000
+    elif index:
+        # element `index` of an array of structs in sandbox memory, reached through operator[]: guest stride
+        p0 = ctx.sym("p", 64)
+        ctx.assume(z3.UGE(p0, base), z3.ULE(p0 - base, BV(SIZE - (index + 1) * st.gsz, 64)))
+        paths = ctx.run("k_storeidx_" + st.name, [base, p0, inb])
+        p = p0 + BV(index * st.gsz, 64)
     else:
         p = ctx.sym("p", 64)
         ctx.assume(z3.UGE(p, base), z3.ULE(p - base, BV(SIZE - st.gsz, 64)))
@@ -288,7 +296,8 @@ def check_store(ctx, st, byval=False):
             ctx.require(q, z3.Not(allfit), "aborts only when some field is not representable in the sandbox ABI")
     ctx.only(paths, "ret", "abort")
     ctx.expect(paths, ret=1)
-    ctx.validate_paths(paths, 4)
+    if not index:
+        ctx.validate_paths(paths, 4)
 
 
 def leaf_app(f, off):
@@ -464,6 +473,7 @@ def jobs(tier, seed):
                     dict(name="%s %s store" % (sbx, st.name), fn=check_store, kw=dict(st=st)),
                     dict(name="%s %s load" % (sbx, st.name), fn=check_load, kw=dict(st=st, form="load")),
                     dict(name="%s %s load (UNSAFE_unverified)" % (sbx, st.name), fn=check_load, kw=dict(st=st, form="loadu")),
+                    dict(name="%s %s store into element [1] of an array" % (sbx, st.name), fn=check_store, kw=dict(st=st, index=1)),
                     dict(name="%s %s by-value argument" % (sbx, st.name), fn=check_store, kw=dict(st=st, byval=True)),
                     dict(name="%s %s by-value result" % (sbx, st.name), fn=check_load, kw=dict(st=st, form="byval_ret")),
                     dict(name="%s %s round trip" % (sbx, st.name), fn=check_roundtrip, kw=dict(st=st))]
